@@ -2,6 +2,7 @@ mod checks;
 mod exec;
 mod framework;
 mod hashseed;
+mod model;
 mod observe;
 mod rng;
 mod run;
